@@ -86,7 +86,13 @@ fn line_alphabet() -> Vec<Vec<u8>> {
     v.push(b"@option preserve".to_vec());
     v.push(b"@option  preserve".to_vec());
     v.push(b"@option preserve ".to_vec());
-    for l in ["@foo", "@foo bar", "@", "@ cwd", "@cwd\t/x", "@CWD /x", "@cwdx /x", "a", "bin/x y", " lead", "+F", "x@y", "\u{e9}", "", " ", "\t "] {
+    for (cmd, _, _) in mp::COMMANDS.iter() {
+        // one character more, one character fewer, a non-UTF-8 byte appended
+        v.push(format!("{}x arg", cmd).into_bytes());
+        v.push(format!("{} arg", &cmd[..cmd.len() - 1]).into_bytes());
+        v.push([cmd.as_bytes(), b"\xff arg"].concat());
+    }
+    for l in ["@commentary x", "@displayname y", "@foo", "@foo bar", "@", "@ cwd", "@cwd\t/x", "@CWD /x", "@cwdx /x", "a", "bin/x y", " lead", "+F", "x@y", "\u{e9}", "", " ", "\t "] {
         v.push(l.as_bytes().to_vec());
     }
     v.push(b"\xf8".to_vec());
@@ -151,5 +157,34 @@ fn main() {
             check_text(t, &text[..text.len() - 1]);
         }
     });
+    // scale: thousands of lines, very long lines
+    {
+        let mut t = Tally::new();
+        let valid: Vec<&Vec<u8>> = alpha.iter().filter(|l| !mp::line_counts(l) || mp::parse_line(l).is_ok()).collect();
+        for (n, stride) in [(100usize, 1usize), (1000, 7), (5000, 13), (20000, 5)] {
+            let mut text = vec![];
+            for i in 0..n {
+                text.extend_from_slice(valid[(i * stride) % valid.len()]);
+                text.push(b'\n');
+            }
+            t.states += 1;
+            t.transitions += n as u64;
+            check_text(&mut t, &text);
+            text.pop();
+            check_text(&mut t, &text);
+        }
+        for len in [255usize, 256, 257, 4095, 4096, 4097, 65_536, 100_000] {
+            for prefix in [&b""[..], b"@comment ", b"@cwd /", b"@exec ", b"@name ", b" "] {
+                let mut line = prefix.to_vec();
+                line.extend(std::iter::repeat(b'x').take(len));
+                t.states += 1;
+                check_line(&mut t, &line);
+                let text = [b"a\n".as_slice(), &line, b"\n@ignore\nb"].concat();
+                check_text(&mut t, &text);
+            }
+        }
+        run.bound("scale: texts of 100..20000 valid alphabet lines; lines of 255..100000 bytes after six prefixes");
+        run.merge(t);
+    }
     run.finish();
 }
